@@ -98,6 +98,17 @@ pub(crate) fn verify_nonmembership<TC: Configuration>(
         ));
     }
 
+    // Verify that neither child is a prefix of the proof's label. Otherwise longest_prefix is
+    // not the deepest node on the label's path, and the label could still be present further
+    // down in that child's subtree
+    for child in proof.longest_prefix_children.iter() {
+        if child.label != TC::empty_label() && child.label.is_prefix_of(&proof.label) {
+            return Err(VerificationError::NonMembershipProof(
+                "One of the children's labels is a prefix of the proof's label".to_string(),
+            ));
+        }
+    }
+
     // Verify that proof.longest_prefix is a prefix of the proof's label
     if !proof.longest_prefix.is_prefix_of(&proof.label) {
         return Err(VerificationError::NonMembershipProof(
